@@ -14,7 +14,7 @@ import itertools
 from typing import Any, Dict, List, Optional, Tuple
 
 from mtsa.absint import K, R, S, U, V
-from mtsa.index import FunctionInfo, Repo, dotted, norm, walk_no_nested
+from mtsa.index import FunctionInfo, Repo, calls_in, dotted, norm, walk_no_nested
 from mtsa.report import AnalysisError, Ctx
 
 from . import infer_model as IM
@@ -251,6 +251,63 @@ def rule_no_growth(ctx: Ctx, repo: Repo) -> None:
               construct="; ".join(norm(l.iter) for l in loops))
 
 
+CREATION_EXEMPT = {
+    # function -> why building a TypedDict there cannot exceed the limit (confirmed by reading)
+    "monkeytype.typing.make_typed_dict": "the constructor itself: wraps the given required/optional mappings",
+    "monkeytype.typing.TypeRewriter.make_anonymous_typed_dict": "rebuilds an anonymous TypedDict from the rewritten fields of an existing one (R-C06.4 decides: same keys)",
+    "monkeytype.typing.TypeRewriter.make_builtin_typed_dict": "rebuilds a named TypedDict from the rewritten annotations of an existing one",
+    "monkeytype.encoding.typed_dict_from_dict": "decodes a stored TypedDict: the keys are those that were encoded",
+}
+
+
+def rule_who_may_create(ctx: Ctx, repo: Repo) -> None:
+    """R-C06.5: a TypedDict comes into being only where the size limit is in scope (a function with the limit
+    parameter, or a helper reached only from such functions) or in one of the listed key-preserving reconstructions."""
+    from .common import call_sites as _cs
+    def creates(fi: FunctionInfo) -> List[ast.Call]:
+        out = []
+        for c in calls_in(fi.node):
+            d = dotted(c.func) or ""
+            if d.split(".")[-1] == "make_typed_dict":
+                out.append(c)
+            elif d.split(".")[-1] == "TypedDict" and fi.module.imports.get(d.split(".")[0], "").startswith(("mypy_extensions", "typing")):
+                out.append(c)
+        return out
+    memo: Dict[str, Tuple[bool, str]] = {}
+
+    def in_scope(fi: FunctionInfo, depth: int = 0) -> Tuple[bool, str]:
+        if fi.fq in memo:
+            return memo[fi.fq]
+        if PARAM in fi.params:
+            memo[fi.fq] = (True, "has the limit parameter")
+            return memo[fi.fq]
+        if fi.fq in CREATION_EXEMPT:
+            memo[fi.fq] = (True, CREATION_EXEMPT[fi.fq])
+            return memo[fi.fq]
+        memo[fi.fq] = (False, "recursion")
+        callers = [c for c, _, _ in _cs(repo, lambda x: x is fi)]
+        if depth > 4 or not callers:
+            memo[fi.fq] = (False, f"{fi.qualname} has no `{PARAM}` in scope and is not a listed reconstruction")
+            return memo[fi.fq]
+        for c in callers:
+            ok, why = in_scope(c, depth + 1)
+            if not ok:
+                memo[fi.fq] = (False, f"reached from {c.qualname}, where no `{PARAM}` is in scope")
+                return memo[fi.fq]
+        memo[fi.fq] = (True, "helper reached only from functions with the limit in scope")
+        return memo[fi.fq]
+
+    n = 0
+    for fi in repo.all_functions():
+        for c in creates(fi):
+            n += 1
+            ok, why = in_scope(fi)
+            ctx.functions.add(fi.fq)
+            ctx.check(ok, "R-C06.5", fi.fq, "a TypedDict is created only where the size limit is in scope, or by a listed key-preserving reconstruction",
+                      construct=f"{norm(c)[:70]}: {why}", node=c)
+    ctx.floor("R-C06.5", "TypedDict creation sites", n, 6)
+
+
 def rule_class_stubs_kept_apart(ctx: Ctx, repo: Repo) -> None:
     """R-C06.4: build_module_stubs never merges generated TypedDict classes: every class of the module stub is one
     of the classes the definitions carried (so the per-TypedDict key bound carries over to the rendered stub)."""
@@ -288,3 +345,4 @@ def run(ctx: Ctx, repo: Repo, tier: str) -> None:
     rule_merge_gate(ctx, repo)
     rule_no_growth(ctx, repo)
     rule_class_stubs_kept_apart(ctx, repo)
+    rule_who_may_create(ctx, repo)
